@@ -85,7 +85,7 @@ func uncoveredCommands(env *Env) []string {
 		}
 		have[strings.Join(path, " ")] = true
 	}
-	var missing []string
+	missing := []string{}
 	for _, l := range strings.Split(string(out), "\n") {
 		f := strings.Fields(l)
 		if len(f) == 0 || f[0] != "git-bug" {
@@ -111,7 +111,7 @@ var assumptions = []string{
 	"every transition is an execution by real operating-system processes: holders run the real cache.NewRepoCache / RepoCache.Close, commands are the real git-bug binary built from the tree under test; there is no separate implementation model whose traces need validation",
 	"the coordinator serialises events: an event is complete (reply line or process exit observed, dead processes reaped) before the next one starts; inside open, the only preemption points are file-system operations on the lock file (reached through repo.LocalStorage())",
 	"states are merged by an abstract key (holder statuses as a multiset, role of the lock file's writer, identity selected, bugs/identities present, local-storage directories present, per-process lock-operation history inside open); pids are abstracted, pid reuse is not explored",
-	"a holder opens the repository like the CLI's LoadRepo (no clock loaders) and a closed holder equals one that never opened",
+	"a holder opens the repository like the CLI's LoadRepo (no clock loaders); a dead holder is not restarted",
 	"bounded: processes, catalogue and depth as listed per run; beyond the completed depth nothing is claimed",
 }
 
